@@ -233,6 +233,51 @@ template <typename F> struct World {
     std::sort(p.begin(), p.end()); p.erase(std::unique(p.begin(), p.end()), p.end());
     return p;
   }
+  // worst-case rounding companions: values y of [lo,hi] such that e*y is just above / below a power of two for an
+  // end point e of the other variable (the products then need a full ulp of rounding)
+  void companions(std::vector<F>& p, F lo, F hi, F e0, F e1) {
+    F es[2] = { e0, e1 };
+    for (int a = 0; a < 2; ++a) { F e = es[a] < 0 ? -es[a] : es[a]; if (e == 0 || !finite_f(e)) continue;
+      for (int k = 0; k <= 4; ++k) { volatile F pw = std::ldexp((F)1, k); volatile F q = pw / e; F y = q;   // (computed in round-up mode)
+        F c[4] = { y, next_dn(y), (F)-y, next_up((F)-y) };
+        for (int j = 0; j < 4; ++j) if (finite_f(c[j]) && c[j] >= lo && c[j] <= hi) p.push_back(c[j]); } }
+    if (lo < 0 && hi > 0) { p.push_back(std::numeric_limits<F>::denorm_min()); p.push_back(-std::numeric_limits<F>::denorm_min()); F t = std::ldexp((F)1, -30); p.push_back(t); p.push_back(-t); }
+    std::sort(p.begin(), p.end()); p.erase(std::unique(p.begin(), p.end()), p.end());
+  }
+  // box store evaluated at the END POINTS, their neighbours and the worst-case companions
+  Store* edge_store(const std::string& nm, F l0, F h0, F l1, F h1) {
+    Store* s = new Store; s->name = nm; s->is_lf = false;
+    s->oracle.box.set_interval(PPL::Variable(0), mkitv(l0, h0)); s->oracle.box.set_interval(PPL::Variable(1), mkitv(l1, h1));
+    std::vector<F> p0 = points(l0, h0), p1 = points(l1, h1);
+    companions(p1, l1, h1, l0, h0);
+    if (l0 < 0 && h0 > 0) { p0.push_back(std::numeric_limits<F>::denorm_min()); p0.push_back(-std::numeric_limits<F>::denorm_min()); std::sort(p0.begin(), p0.end()); }
+    for (size_t a = 0; a < p0.size(); ++a) for (size_t b = 0; b < p1.size(); ++b) s->conc.push_back(std::make_pair(p0[a], p1[b]));
+    return s;
+  }
+  // exact rounding of a rational towards +inf / -inf in F
+  F round_q(const Q& q, bool up) { F lo, hi; roundings(q, lo, hi); return up ? hi : lo; }
+  // linear-form store x1 -> [cl,ch]*x0 + [dl,dh] with an asymmetric zero-straddling coefficient; concrete stores: x0 at
+  // the end points / companions, x1 at (the inward roundings of) the extreme values of the form
+  Store* asym_lf_store(const std::string& nm, F cl, F ch, F dl, F dh, F l0, F h0) {
+    Store* s = new Store; s->name = nm; s->is_lf = true;
+    LF f(PPL::Variable(0)); f *= mkitv(cl, ch); f += mkitv(dl, dh); s->lf[1] = f;
+    std::vector<F> p0 = points(l0, h0); companions(p0, l0, h0, cl, ch);
+    Q lo1, hi1; bool first = true;
+    std::vector<std::pair<F, F> > cs;
+    for (size_t a = 0; a < p0.size(); ++a) {
+      Q x = FT<F>::toq(p0[a]);
+      Q c1 = FT<F>::toq(cl) * x, c2 = FT<F>::toq(ch) * x; Q mn = c1 < c2 ? c1 : c2, mx = c1 < c2 ? c2 : c1;
+      Q vlo = mn + FT<F>::toq(dl), vhi = mx + FT<F>::toq(dh);
+      F a1 = round_q(vlo, true), a2 = round_q(vhi, false), a3 = round_q(mn, true), a4 = round_q(mx, false);
+      F cand[4] = { a1, a2, a3, a4 };
+      for (int j = 0; j < 4; ++j) { Q v = FT<F>::toq(cand[j]); if (v < vlo || v > vhi) continue; cs.push_back(std::make_pair(p0[a], cand[j]));
+        if (first || v < lo1) lo1 = v; if (first || v > hi1) hi1 = v; first = false; }
+    }
+    s->conc = cs;
+    s->oracle.box.set_interval(PPL::Variable(0), mkitv(l0, h0));
+    s->oracle.box.set_interval(PPL::Variable(1), mkitv(round_q(lo1, false), round_q(hi1, true)));
+    return s;
+  }
   Store* box_store(const std::string& nm, bool u0, F l0, F h0, F l1, F h1) {
     Store* s = new Store; s->name = nm; s->is_lf = false;
     if (!u0) s->oracle.box.set_interval(PPL::Variable(0), mkitv(l0, h0));
@@ -316,6 +361,14 @@ template <typename F> struct World {
       for (int b = 0; b < 3; ++b) { F y = ys[b]; F xs[] = { (F)(0.5 * y - 0.25), y, (F)(1.5 * y + 0.25), (F)(0.5 * y + 0.25) }; for (int a = 0; a < 4; ++a) s->conc.push_back(std::make_pair(xs[a], y)); }
       stores.push_back(s);
     }
+    // asymmetric zero-straddling intervals (|lower| > upper and the mirror image), judged at end points and worst-case
+    // rounding companions; appended last so that the indices of the stores above stay stable
+    stores.push_back(edge_store("B8:x0=[-6.5,1],x1=[0,16]@edges", (F)-6.5, 1, 0, 16));
+    stores.push_back(asym_lf_store("L4:x1->[-6.5,1]*x0+[-1,1];x0=[0,16]@edges", (F)-6.5, 1, -1, 1, 0, 16));
+    if (thorough) {
+      stores.push_back(edge_store("B9:x0=[-1,3],x1=[-16,2]@edges", -1, 3, -16, 2));
+      stores.push_back(asym_lf_store("L5:x1->[-1,3]*x0+[-3,1];x0=[-2,8]@edges", -1, 3, -3, 1, -2, 8));
+    }
     // self-check: every concrete store lies inside its abstract store
     for (size_t k = 0; k < stores.size(); ++k) {
       Store* s = stores[k];
@@ -356,6 +409,7 @@ template <typename F> struct World {
     std::string root = t->k == N_BIN ? std::string(1, t->op) : (t->k == N_NEG ? "neg" : "leaf");
     vf::J in; in.str("format", tname).str("expr", t->s).str("store", st.name).num("si", (long long)si).num("a", a).num("b", b).num("op", op).str("impl", impl);
     if (!read_form(result, coef)) { viol(site, "invariant", "none", in.done(), "NaN coefficient or too many dimensions", "well-formed linear form", "linearize returned true with an ill-formed result"); return; }
+    if (g_replay_mode && getenv("C12_VERBOSE")) printf("  %s: %s -> %s\n", impl, t->s.c_str(), form_str(coef).c_str());
     for (size_t c = 0; c < st.conc.size(); ++c) {
       F v[2] = { st.conc[c].first, st.conc[c].second };
       RI E; bool have = false;
@@ -363,6 +417,11 @@ template <typename F> struct World {
         if (!fin[m][c]) continue;
         if (!have) { vf::RefGuard g; E = eval_coefs(coef, v); have = true; }
         Q q = FT<F>::toq(vals[m][c]);
+        if (g_replay_mode && getenv("C12_VERBOSE")) {   // margins of every concrete evaluation
+          Q dl = E.lo.inf ? Q(0) : Q(q - E.lo.v), dh = E.hi.inf ? Q(0) : Q(E.hi.v - q);
+          printf("  %s x0=%s x1=%s %s value=%s margin_low=%.3g margin_high=%.3g (ulps of value: %.3g / %.3g)\n", t->s.c_str(), fstr(v[0]).c_str(), fstr(v[1]).c_str(), FE_NAMES[m], fstr(vals[m][c]).c_str(),
+                 dl.get_d(), dh.get_d(), dl.get_d() / (double)(next_up(vals[m][c] < 0 ? -vals[m][c] : vals[m][c]) - (vals[m][c] < 0 ? -vals[m][c] : vals[m][c])), dh.get_d() / (double)(next_up(vals[m][c] < 0 ? -vals[m][c] : vals[m][c]) - (vals[m][c] < 0 ? -vals[m][c] : vals[m][c])));
+        }
         if (!R::has(E, q)) {
           vf::J in2 = in; in2.str("x0", fstr(v[0])).str("x1", fstr(v[1])).str("rounding", FE_NAMES[m]);
           viol(site, "enclosure", trig_for(t, st), in2.done(), "concrete value " + fstr(vals[m][c]) + " (" + R::qstr(q) + ")", "in " + R::str(E) + " = eval(" + form_str(coef) + ")",
@@ -475,6 +534,90 @@ template <typename F> struct World {
     while (f < std::numeric_limits<F>::max() && FT<F>::toq(next_up(f)) <= q) f = next_up(f);
     lo = f; hi = (FT<F>::toq(f) == q || f >= std::numeric_limits<F>::max()) ? f : next_up(f);
   }
+  // ---------------------------------------------------------------------------------------------
+  // exhaustive coefficient-level check of the helper forms against an exact rational reference:
+  // forms  i + c0*x0 + c1*x1  with (i, c0, c1) ranging over ALL triples of a coefficient-interval menu
+  // ---------------------------------------------------------------------------------------------
+  void run_lfmenu(bool thorough) {
+    FPI tenth = str_itv("0.1"); tenth.topological_closure_assign();
+    std::vector<FPI> cm; std::vector<std::string> cn;
+    #define CMI(lo, hi, nm) { cm.push_back(mkitv((F)(lo), (F)(hi))); cn.push_back(nm); }
+    CMI(-3, 1, "[-3,1]") CMI(-1, 3, "[-1,3]") CMI(-6.5, 1, "[-6.5,1]") CMI(0, 1, "[0,1]") CMI(-1, 0, "[-1,0]") CMI(2, 2, "[2,2]") CMI(-2, -2, "[-2,-2]")
+    CMI(-1, 1, "[-1,1]") CMI(0, 0, "[0,0]")
+    cm.push_back(tenth); cn.push_back("[0.1]");
+    if (thorough) { CMI(-1e30, 3, "[-1e30,3]") CMI(-0.25, 1e-30, "[-0.25,1e-30]") CMI(-7, -0.5, "[-7,-0.5]") }
+    #undef CMI
+    size_t n = cm.size();
+    std::vector<RI> cr(n); for (size_t k = 0; k < n; ++k) read_fp(cm[k], cr[k]);
+    // relative rounding error bound (one ulp over the smallest significand) of every analysed format: base 2 with hidden
+    // bit: 2^-fraction_bits; IBM single (6 hexadecimal digits, no hidden bit, leading digit >= 1): 16^(1-6) = 2^-20
+    struct FmtRef { PPL::Floating_Point_Format f; const char* name; int log2_relerr; };
+    static const FmtRef FR[6] = { { PPL::IEEE754_HALF, "HALF", -10 }, { PPL::IEEE754_SINGLE, "SINGLE", -23 }, { PPL::IEEE754_DOUBLE, "DOUBLE", -52 },
+                                  { PPL::IBM_SINGLE, "IBM_SINGLE", -20 }, { PPL::IEEE754_QUAD, "QUAD", -112 }, { PPL::INTEL_DOUBLE_EXTENDED, "INTEL_DOUBLE_EXTENDED", -63 } };
+    std::string site = "Linear_Form<" + tname + ">";
+    for (size_t a = 0; a < n; ++a) for (size_t b = 0; b < n; ++b) for (size_t c = 0; c < n; ++c) {
+      LF f(PPL::Variable(1)); f *= cm[c]; { LF g(PPL::Variable(0)); g *= cm[b]; f += g; } f += cm[a];
+      const RI* want[3] = { &cr[a], &cr[b], &cr[c] };
+      std::string fname = cn[a] + " + " + cn[b] + "*x0 + " + cn[c] + "*x1";
+      RI cf[3];
+      // construction itself: coefficient-wise enclosure (exact for these representable bounds)
+      vf::count(CNT_LFOPS); vf::count(vf::CNT_TRANS);
+      if (!read_form(f, cf)) { mach_error("menu form unreadable"); continue; }
+      for (int d = 0; d < 3; ++d) if (!R::subset(*want[d], cf[d])) { vf::J in; in.str("format", tname).str("op", "construction").str("f1", fname); viol(site + "::operator*=", "enclosure", "none", in.done(), R::str(cf[d]), R::str(*want[d]), "coefficient of the constructed form does not enclose the requested interval"); }
+      // relative_error for every analysed format: coefficient d must enclose max(|lo|,|hi|) * [-beta^-p, beta^-p]
+      for (int fi = 0; fi < 6; ++fi) {
+        LF re; f.relative_error(FR[fi].f, re); vf::count(CNT_LFOPS); vf::count(vf::CNT_TRANS);
+        RI rc[3]; vf::J in; in.str("format", tname).str("op", "relative_error").str("analysed", FR[fi].name).str("f1", fname);
+        if (!read_form(re, rc)) { viol(site + "::relative_error", "invariant", "none", in.done(), "NaN", "well-formed", "ill-formed result"); continue; }
+        Q eps(1); mpq_div_2exp(eps.get_mpq_t(), eps.get_mpq_t(), (unsigned long)(-FR[fi].log2_relerr));
+        for (int d = 0; d < 3; ++d) {
+          Q m = abs(cf[d].lo.v) > abs(cf[d].hi.v) ? Q(abs(cf[d].lo.v)) : Q(abs(cf[d].hi.v));
+          RI ref = R::mk(R::fin(-m * eps, false), R::fin(m * eps, false));
+          if (!R::subset(ref, rc[d])) { viol(site + "::relative_error", "enclosure", FR[fi].f == PPL::IBM_SINGLE ? "analysed_format_IBM_SINGLE_base_16" : "none", in.done(), std::string(d == 0 ? "inhomogeneous term " : d == 1 ? "coefficient of x0 " : "coefficient of x1 ") + R::str(rc[d]), "encloses " + R::str(ref),
+                 "documented: max(|a|,|b|) * [-beta^-p, beta^-p] per coefficient; the computed error term is too small"); break; }
+          // and not grossly larger than documented (outward rounding only): within a factor 1 + 2^-20
+          RI big = R::mk(R::fin(-m * eps * Q(1048577, 1048576) - FT<F>::toq(std::numeric_limits<F>::denorm_min()), false), R::fin(m * eps * Q(1048577, 1048576) + FT<F>::toq(std::numeric_limits<F>::denorm_min()), false));
+          if (!R::subset(rc[d], big)) { viol(site + "::relative_error", "exact", "none", in.done(), R::str(rc[d]), "about " + R::str(ref), "the computed error term is larger than the documented one by more than outward rounding"); break; }
+        }
+      }
+      // intervalize in every store: must enclose  i + c0*box(x0) + c1*box(x1)  computed exactly
+      for (size_t k = 0; k < stores.size(); ++k) {
+        FPI iv; vf::count(CNT_LFOPS); vf::count(vf::CNT_TRANS);
+        if (!f.intervalize(stores[k]->oracle, iv)) continue;
+        RI got, b0, b1; vf::J in; in.str("format", tname).str("op", "intervalize").str("f1", fname).str("store", stores[k]->name);
+        if (!read_fp(iv, got)) { viol(site + "::intervalize", "invariant", "none", in.done(), "NaN", "well-formed", "NaN bound"); continue; }
+        read_fp(stores[k]->oracle.box.get_interval(PPL::Variable(0)), b0); read_fp(stores[k]->oracle.box.get_interval(PPL::Variable(1)), b1);
+        RI ref = R::add(cf[0], R::add(R::mul(cf[1], b0), R::mul(cf[2], b1)));
+        if (!R::subset(ref, got)) viol(site + "::intervalize", "enclosure", "none", in.done(), R::str(got), "encloses " + R::str(ref), "intervalization does not enclose the exact interval evaluation of the form over the box");
+      }
+    }
+    // coefficient-wise arithmetic on pairs of forms over a sub-menu, and scaling by every menu interval
+    size_t sub[4] = { 0, 3, 5, 4 };   // [-3,1], [0,1], [2,2], [-1,0]
+    std::vector<LF> fs; std::vector<std::string> fnames;
+    for (int a = 0; a < 4; ++a) for (int b = 0; b < 4; ++b) for (int c = 0; c < 4; ++c) {
+      LF f(PPL::Variable(1)); f *= cm[sub[c]]; { LF g(PPL::Variable(0)); g *= cm[sub[b]]; f += g; } f += cm[sub[a]];
+      fs.push_back(f); fnames.push_back(cn[sub[a]] + " + " + cn[sub[b]] + "*x0 + " + cn[sub[c]] + "*x1");
+    }
+    for (size_t x = 0; x < fs.size(); ++x) {
+      RI cx[3]; read_form(fs[x], cx);
+      for (size_t y = 0; y < fs.size(); ++y) for (int o = 0; o < 2; ++o) {
+        RI cy[3], cz[3]; read_form(fs[y], cy);
+        LF z = o == 0 ? fs[x] + fs[y] : fs[x] - fs[y]; vf::count(CNT_LFOPS); vf::count(vf::CNT_TRANS);
+        vf::J in; in.str("format", tname).str("op", o == 0 ? "operator+" : "operator-").str("f1", fnames[x]).str("f2", fnames[y]);
+        if (!read_form(z, cz)) { viol(site + (o == 0 ? "::operator+" : "::operator-"), "invariant", "none", in.done(), "NaN", "well-formed", "ill-formed result"); continue; }
+        for (int d = 0; d < 3; ++d) { RI ref = o == 0 ? R::add(cx[d], cy[d]) : R::sub(cx[d], cy[d]);
+          if (!R::subset(ref, cz[d])) { viol(site + (o == 0 ? "::operator+" : "::operator-"), "enclosure", "none", in.done(), R::str(cz[d]), "encloses " + R::str(ref), "coefficient-wise interval sum/difference not enclosed"); break; } }
+      }
+      for (size_t k = 0; k < n; ++k) for (int o = 0; o < 2; ++o) {
+        LF z = fs[x]; if (o == 0) z *= cm[k]; else z /= cm[k]; vf::count(CNT_LFOPS); vf::count(vf::CNT_TRANS);
+        RI cz[3]; vf::J in; in.str("format", tname).str("op", o == 0 ? "operator*=" : "operator/=").str("f1", fnames[x]).str("k", cn[k]);
+        if (!read_form(z, cz)) { viol(site + (o == 0 ? "::operator*=" : "::operator/="), "invariant", "none", in.done(), "NaN", "well-formed", "ill-formed result"); continue; }
+        for (int d = 0; d < 3; ++d) { RI ref = o == 0 ? R::mul(cx[d], cr[k]) : R::div(cx[d], cr[k]);
+          if (!R::subset(ref, cz[d])) { viol(site + (o == 0 ? "::operator*=" : "::operator/="), "enclosure", "none", in.done(), R::str(cz[d]), "encloses " + R::str(ref), "coefficient-wise interval product/quotient not enclosed"); break; } }
+      }
+    }
+  }
+
   void run_lfops(bool thorough) {
     typedef std::numeric_limits<F> L;
     std::vector<LF> forms; std::vector<std::string> fn;
@@ -599,21 +742,23 @@ int main(int argc, char** argv) {
     printf("replay: format=%s store=%lld a=%lld b=%lld op=%lld expr=%s\n", fmt.c_str(), si, a, b, op, json_str(in, "expr").c_str());
     #define REPLAY(W) { if (a >= 0) { Node* n = W.bin(OPS[op], W.subs[a], W.subs[b]); W.check_tree(n, (size_t)si, a, b, (int)op); } \
                         else if (a == -1) W.check_tree(W.d1[b], (size_t)si, a, b, -1); else { Node* n = W.neg(W.subs[b]); W.check_tree(n, (size_t)si, a, b, -1); } }
-    if (json_str(in, "expr").empty()) { if (fmt == "float") wf.run_lfops(thorough); else wd.run_lfops(thorough); }
+    if (json_str(in, "expr").empty()) { if (fmt == "float") { wf.run_lfops(thorough); wf.run_lfmenu(thorough); } else { wd.run_lfops(thorough); wd.run_lfmenu(thorough); } }
     else if (fmt == "float") REPLAY(wf) else REPLAY(wd)
     printf("replay: %lld implementation calls, %lld violations\n", vf::counter(vf::CNT_TRANS), vf::counter(vf::CNT_VIOL));
     return 0;
   }
 
   size_t nf = wf.stores.size() * wf.items_per_store(), nd = wd.stores.size() * wd.items_per_store();
-  long long N = (long long)(nf + nd + 2);
+  long long N = (long long)(nf + nd + 4);
   fprintf(stderr, "[c12_linform] menu=%s: %zu subtrees, %zu trees of depth<=1, %zu stores per format, %lld work items\n", menu.c_str(), wf.subs.size(), wf.d1.size(), wf.stores.size(), N);
   vf::pool().run(N, args.jobs,
     [&](long long item, long long sub_start) {
       if (item < (long long)nf) wf.run_item((size_t)item / wf.items_per_store(), (size_t)item % wf.items_per_store(), sub_start);
       else if (item < (long long)(nf + nd)) { size_t k = (size_t)item - nf; wd.run_item(k / wd.items_per_store(), k % wd.items_per_store(), sub_start); }
       else if (item == (long long)(nf + nd)) wf.run_lfops(thorough);
-      else wd.run_lfops(thorough);
+      else if (item == (long long)(nf + nd + 1)) wd.run_lfops(thorough);
+      else if (item == (long long)(nf + nd + 2)) wf.run_lfmenu(thorough);
+      else wd.run_lfmenu(thorough);
     },
     [&](long long item, long long sub, int sig, bool confirmed) {
       if (!confirmed) return;
@@ -636,7 +781,7 @@ int main(int argc, char** argv) {
     .str("bound", std::string("menu '") + menu + "': all expression trees of depth <= 2 over {6 constants 0,1,-1,0.1,3,1e30; x0,x1; (fp) casts of the integers 3 and 2^24+1; unary -; + - * /}"
          + (thorough ? " (children of the root: every tree of depth <= 1)" : " (quick: children of the root restricted to leaves, casts, -x0, -x1 and binary subtrees over {x0,x1,0.1,3})")
          + "; abstract stores: " + (thorough ? "8" : "6") + " boxes + 3 linear-form stores; analysed/analyser formats float and double; both implementations (linearize() on C_Expr, Floating_Point_Expression classes); "
-           "concrete stores = bounds, midpoints, one-ulp neighbours, zero per variable; 4 IEEE rounding modes; Linear_Form + - += -= negate, *= /= += -= interval, relative_error, intervalize over a menu of 6-7 forms x 8 intervals")
+           "concrete stores = bounds, midpoints, one-ulp neighbours, zero per variable; 4 IEEE rounding modes; Linear_Form + - += -= negate, *= /= += -= interval, relative_error, intervalize over a menu of 6-7 forms x 8 intervals; exhaustive coefficient-level check of relative_error (6 analysed formats), intervalize, + - *= /= over all triples of a 10-13 interval coefficient menu incl. asymmetric zero-straddling ones; stores B8/L4 (B9/L5) with asymmetric zero-straddling intervals judged at end points, neighbours and worst-case rounding companions")
     .arr("samples", samples).raw("extra", extra.done()).dbl("wall_s", vf::now_s() - t0);
   vf::sink().line(st.done());
   return 0;
